@@ -340,6 +340,9 @@ pub fn run(args: &[String]) -> i32 {
             let fresh;
             let base = if focus.is_some() {
                 fresh = vg.value(&mut crng, &schema, None, 0);
+                if vg.gave_up.replace(false) {
+                    continue; // this draw hit a branch without a finite value
+                }
                 &fresh
             } else {
                 &base
